@@ -414,13 +414,13 @@ Lemma open_prefix :
   eval_repr W (S f) E (EOpen pname inputs) xbase id s =
   (let '(iv, ok) := fst t in
    if negb ok || contains_unknowns iv || w_check W then ret [unknown_layer false (pv_out p)]
-   else match export big_fuel iv with
+   else match export_t iv with
         | Some (XObj s0 u m as xin) =>
             failed2 <- call W ;;
             emit (EvOpen id pname xin (ec_root E) (ec_name E)) ;;;
             match (if failed2 then None
                    else match pv_beh p with PEcho => Some xin | PConst v => Some v | PFail => None end) with
-            | Some o => ret (unexport big_fuel false o)
+            | Some o => ret (unexport (S (x_depth o)) false o)
             | None => err ;;; ret [unknown_layer false (pv_out p)]
             end
         | Some _ => err ;;; ret [unknown_layer false (pv_out p)]
@@ -441,7 +441,7 @@ Qed.
 
 Theorem provider_open_failure iv a b m :
   fst t = (iv, true) -> contains_unknowns iv = false -> w_check W = false ->
-  export big_fuel iv = Some (XObj a b m) ->
+  export_t iv = Some (XObj a b m) ->
   (w_fault W = Some (calls (snd t)) \/ pv_beh p = PFail) ->
   exists s',
     eval_repr W (S f) E (EOpen pname inputs) xbase id s = ([unknown_layer false (pv_out p)], s') /\
@@ -460,7 +460,7 @@ Qed.
 (* inputs that are not an object although the schema let them through: diagnostic, not a crash *)
 Theorem provider_nonobject_inputs iv x :
   fst t = (iv, true) -> contains_unknowns iv = false -> w_check W = false ->
-  export big_fuel iv = Some x -> (forall a b m, x <> XObj a b m) ->
+  export_t iv = Some x -> (forall a b m, x <> XObj a b m) ->
   eval_repr W (S f) E (EOpen pname inputs) xbase id s = ([unknown_layer false (pv_out p)], bump (snd t)).
 Proof.
   intros H1 H2 H3 H4 H5. rewrite open_prefix. rewrite H1, H2, H3, H4. cbn [negb orb].
